@@ -171,6 +171,38 @@ Proof.
       unfold is_kind in Hl; rewrite Hk in Hl; cbn [orb] in Hl; destruct (edges toks i); [destruct He|discriminate] end.
 Qed.
 
+(* ---------- the feature tables ---------- *)
+Lemma cf_edge_facts i e : 1 <= i <= K -> In e (edges toks i) ->
+  (forall v, In v (lit_vars (fst e)) -> In v (get T i [])) /\
+  (forall v, In v (get T (snd e) []) -> In v (get T i [])) /\
+  NoDup (lit_vars (fst e)) /\ (forall v, In v (lit_vars (fst e)) -> ~ In v (get T (snd e) [])).
+Proof.
+  intros Hi He. pose proof (cf_node i Hi) as Hn. unfold node_ok in Hn.
+  repeat (apply andb_true_iff in Hn; destruct Hn as [Hn ?]).
+  match goal with Hf : forallb _ (edges toks i) = true |- _ => pose proof (forallb_In _ _ e Hf He) as Ee end.
+  repeat (apply andb_true_iff in Ee; destruct Ee as [Ee ?]).
+  match goal with Hok : edge_ok T e = true |- _ => unfold edge_ok in Hok; apply andb_true_iff in Hok; destruct Hok as [Hnd Hdj] end.
+  split; [now apply incln_incl|]. split; [now apply incln_incl|]. split; [now apply nodupn_NoDup|now apply disjn_spec].
+Qed.
+
+Lemma pairwiseb_PW {A} (p : A -> A -> bool) l : pairwiseb p l = true -> PW (fun a b => p a b = true) l.
+Proof.
+  induction l as [|x l IH]; intros Hp; [exact I|]. cbn [pairwiseb] in Hp. apply andb_true_iff in Hp. destruct Hp as [H1 H2].
+  split; [|now apply IH]. apply Forall_forall. intros y Hy. exact (forallb_In _ _ y H1 Hy).
+Qed.
+
+Lemma cf_and i : 1 <= i <= K -> kind toks i = Some KAnd ->
+  PW (fun a b => forall v, In v (edge_set T a) -> ~ In v (edge_set T b)) (edges toks i).
+Proof.
+  intros Hi Hk. pose proof (cf_node i Hi) as Hn. unfold node_ok in Hn.
+  repeat (apply andb_true_iff in Hn; destruct Hn as [Hn ?]).
+  match goal with Hl : (if is_kind toks i KAnd then _ else _) = true |- _ =>
+    unfold is_kind in Hl; rewrite Hk in Hl; unfold and_ok in Hl; apply pairwiseb_PW in Hl end.
+  match goal with Hl : PW _ (edges toks i) |- _ => revert Hl end.
+  generalize (edges toks i). intros l. induction l as [|x l IH]; intros HP; [exact I|]. destruct HP as [P1 P2].
+  split; [|now apply IH]. eapply Forall_impl; [|exact P1]. intros y Hy. now apply disjn_spec.
+Qed.
+
 (* ---------- or nodes ---------- *)
 Definition exempt (e : list Z * nat) : Prop := fst e = [] /\ is_kind toks (snd e) KFalse = true.
 Definition Redge (a b : list Z * nat) : Prop :=
